@@ -10,6 +10,7 @@ import BufrModel.Lemmas.CoderOpSrc
 import BufrModel.Lemmas.CoderElemSrc
 import BufrModel.Lemmas.CoderWalkSrc
 import BufrModel.Lemmas.CoderCompositeSrc
+import BufrModel.Lemmas.CoderCapstoneSrc
 import BufrModel.Props.C14Src
 set_option linter.unusedSimpArgs false
 namespace Bufr
@@ -279,5 +280,42 @@ example : ∃ (cb : PyGen.coder.Coder.process_sequence_descriptor.Callbacks PyGe
     ∀ ps b s, AbsSt (fun _ => default) (fun _ _ _ => True) ps b s →
       Corr (fun _ => default) (fun _ _ _ => True) (cb.process_members ps b d.members) (walkList failPrims (d.members.map descOf) s) :=
   ⟨⟨fun ps b _ => .ok (ps, b)⟩, ⟨301001, []⟩, fun _ _ _ h => h⟩
+
+/-! ### the capstone: the whole template walk
+
+  `pyWalk L fuel` (`Lemmas/CoderCapstoneSrc.lean`) is the generated `process_members` whose callbacks for the composite
+  descriptors are the generated `process_fixed_replication_descriptor`, `process_delayed_replication_descriptor`,
+  `process_sequence_descriptor`, whose callback `process_members` is `pyWalk L` with one unit of fuel less: the four
+  recursive methods of the walk calling each other as `self.process_x(...)` does.  That wiring is written by hand (the
+  translator generates one `Callbacks` structure per method; every method BODY is the generated one).  `L` holds the
+  methods that do not recurse; `LeafCorr` asks of them what `C01_src_process_element_descriptor`,
+  `C01_src_process_operator_descriptor`, `C07_src_process_bitmap_definition` establish for the generated ones, and of
+  `process_define_new_refval`, `process_skipped_local_descriptor`, `get_value_for_delayed_replication_factor` that they
+  correspond to `P.newRefval` (`lib` error for a string element), `P.codeflag (.skipped …)` with the register reset, and
+  `P.factorValue >>= factorCount`. -/
+
+/-- **The regenerated template walk is the model's `walkList`**: for every list of descriptor trees `ms` (members, factors
+    and members of members … of any depth) with non-negative ids and no replication descriptor of id 031011 / 031012
+    (`GoodDs`), every fuel above the nesting depth of `ms`, every Python state / bit operator / model state that
+    correspond, and leaf methods that correspond, the regenerated walk and `walkList P (ms.map descOf)` return
+    corresponding states or fail with the same error class.  In particular the fuel suffices (no `outOfFuel`): the
+    recursion of `process_members` through the composite descriptors terminates. -/
+theorem C01_src_process_members {V B : Type} (φ : PyGen.coder.Descr → Elem)
+    (A : PyData PyGen.coder.Descr V → B → StData → Prop) (L : LeafCb V B) (P : Prims) (hL : LeafCorr φ A L P)
+    (fuel : Nat) (ms : List PyGen.coder.Descr) (hg : GoodDs ms) (hd : depthsOf ms < fuel)
+    (ps : PyGen.coder.CoderState.Self PyGen.coder.Descr V) (b : B) (s : St) (h : AbsSt φ A ps b s) :
+    Corr φ A (pyWalk L fuel ps b ms) (walkList P (ms.map descOf) s) :=
+  walk_core φ A L P hL fuel ms hg hd ps b s h
+
+/-- the hypotheses on the tree are satisfiable by a nested template: a sequence holding a fixed replication of an
+    element and an operator, a delayed replication with its factor -/
+example : GoodDs [.SequenceDescriptor 301001 [.FixedReplicationDescriptor 101002 [.ElementDescriptor 12101 "K".toList 2 0 16],
+      .OperatorDescriptor 201130, .DelayedReplicationDescriptor 101000 [.ElementDescriptor 1001 "NUMERIC".toList 0 0 7]
+        (.ElementDescriptor 31001 "NUMERIC".toList 0 0 8)]] ∧
+    depthsOf [.SequenceDescriptor 301001 [.FixedReplicationDescriptor 101002 [.ElementDescriptor 12101 "K".toList 2 0 16],
+      .OperatorDescriptor 201130, .DelayedReplicationDescriptor 101000 [.ElementDescriptor 1001 "NUMERIC".toList 0 0 7]
+        (.ElementDescriptor 31001 "NUMERIC".toList 0 0 8)]] < 3 := by
+  refine ⟨?_, by decide⟩
+  simp [GoodDs, GoodD, PyGen.coder.Descr.id]
 
 end Bufr
